@@ -114,6 +114,28 @@ CHECKS = {
    note="Trusted: the virtual Lock/Event/Queue semantics (engine selftest), discrete-event time, statement (not bytecode) preemption granularity. Bounded: schedules outside the deviation bounds are not explored."),
 }
 
+# coverage added by the seeded waves (DESIGN 9.5), appended to each check's own words
+EXTRA = {
+ "C02": "Read chunking (short reads, partial sends) as environment choices also on the socket and via transports.",
+ "C03": "The same endings while another thread of the closing process is inside _send on another channel (explicit close / drop / drop with callback, both directions).",
+ "C04": "Base scenario E: a callback that fails on its endmarker sits on the channel with the lowest id while a receiver and a waitclose caller block on a later channel.",
+ "C05": "Remote state 'nondaemon' (a non-daemon thread outlives its task: connection closed, process alive) in the virtual process model and as a real cell.",
+ "C06": "Tracebacks of functions raising 0 / 5 / 45 / 200 calls deep must still name the raising line.",
+ "C07": "Every failure kind also under gateway.reconfigure(py3str_as_py2str / py2str_as_py3str); callbacks failing on their ENDMARKER on either side (gateway and sibling stay up, own channel carries the error).",
+ "C09": "Task kinds raising SystemExit / a BaseException subclass.",
+ "C10": "Every falsy endmarker value (None, 0, False, '') for setcallback and MultiChannel.make_receive_queue.",
+ "C11": "5 more worker activities describing channel state at the moment of death: callback on a dropped channel, on a held channel, two dropped callback channels, a callback failing on its endmarker, several open channels.",
+ "C12": "All module-level API call histories (dumps/loads/dump/load, succeeding and failing) up to depth 2 (3 thorough) against the reference codec; two threads inside dumps()/dump() preempted at every serializer statement.",
+ "C13": "Length-prefixed payloads of 13 size classes (0 .. 200001 bytes; 1 MiB+1 and 4 MiB+3 thorough) for BYTES / PY3STRING / PY2STRING / UNICODE at root / in a list / as dict key / in a set / in a tuple, whole and cut inside the payload.",
+ "C15": "Worker IO-encoding / locale cells (PYTHONIOENCODING=ascii, latin-1; C locale without coercion or UTF-8 mode) for import, exec and via bootstrap.",
+ "C16": "The cyclic garbage collector as an environment choice at every statement of the sending path (a cyclic-garbage channel of the same gateway is finalized from inside _send) for 1-byte and 70 kB echo programs on every transport.",
+ "C18": "remote_exec calls that fail after their id was allocated (unserialisable kwargs) racing with allocations of another thread; ids handed out afterwards must be fresh.",
+ "C19": "A thread reading to the end through makefile('r') and writing through makefile('w') at once, under sync- and statement-level preemption of the receiver thread (write must raise OSError once the end was observed).",
+ "C20": "All makegateway(id=a / id=b / automatic) / exit histories up to depth 5 (6 thorough) against a list model: iteration order, lookup by index / id / object and membership for every gateway object ever created (ids reused after exit, repeated exits).",
+}
+for pid, extra in EXTRA.items():
+    CHECKS[pid]["text"] = CHECKS[pid]["text"].rstrip() + " Also: " + extra
+
 checks = []
 for pid, c in CHECKS.items():
     checks.append({
